@@ -69,6 +69,11 @@ type CaseHist struct {
 	Base    B    `json:"base"`
 	HasBase bool `json:"has_base"`
 	Ops     []Op `json:"ops"`
+	// Blind: nothing is read from the URL between the steps (no getter, no serialization); the
+	// oracle looks at the end only. Observing after every step would fill every lazily computed or
+	// cached value before the next step runs — a step that relies on such a value having been
+	// filled is only visible when nobody looked in between.
+	Blind bool `json:"blind,omitempty"`
 }
 
 func (c CaseHist) start() Case01 { return Case01{Input: c.Input, Base: c.Base, HasBase: c.HasBase} }
@@ -85,6 +90,7 @@ type histOpts struct {
 	maxOps  int
 	resolve bool
 	clone   bool
+	blind   bool
 	// start: "setter" = WPT hrefs / grammar / extreme starts without base; "pair" = C01's (input, base)
 	start string
 }
@@ -111,6 +117,15 @@ func genHistory(t *rapid.T, o histOpts) CaseHist {
 				c.Ops = append(c.Ops, Op{Kind: "set", Setter: which, Cur: true})
 			} else {
 				c.Ops = append(c.Ops, Op{Kind: "set", Setter: which, Value: B(gen.SetterValue(t, "value", which))})
+			}
+		}
+	}
+	if o.blind {
+		// (drawn last: the draws above are the same with and without this option)
+		c.Blind = rapid.IntRange(0, 3).Draw(t, "blind") == 0
+		if c.Blind {
+			for i := range c.Ops {
+				c.Ops[i].Cur = false // a "current value" argument would be a read
 			}
 		}
 	}
@@ -145,6 +160,9 @@ func validAt(s string, i int) bool {
 
 func histString(c CaseHist, upto int) string {
 	s := quote(string(c.Input))
+	if c.Blind {
+		s = "[nothing read between the steps] " + s
+	}
 	if c.HasBase {
 		s += " base=" + quote(string(c.Base))
 	}
